@@ -165,7 +165,8 @@ def prop_sample(ctx, case):
 
 PROPS = {'vmfault': prop_vmfault, 'launch': prop_launch, 'sample': prop_sample}
 
-JUNK = ['INTERRUPT', 'DecrSet', 'BSC_pread_extended_info', 'MACH_vm_page_release', 'PERF_THD_CSwitch']
+JUNK = ['INTERRUPT', 'DecrSet', 'BSC_pread_extended_info', 'MACH_vm_page_release', 'PERF_THD_CSwitch',
+        'vm_fast_fault', 'vm_disconnect_task_page_mappings', 'vm_slow_fault']      # the last three: ids adjacent to the real-fault records
 
 
 def items(kinds, max_n, extra=st.integers(0, 120)):
